@@ -307,6 +307,62 @@ def run(ctx):
     ctx.record('R02.2', 'path', 'COMMAND_RE character class == COMMANDS', cls_ == commands,
                detail='class=%s' % (sorted(cls_) if cls_ is not None else None), where='svgpathtools/path.py')
 
+    # ------------------------------------------------------------------ R02.9 public entry points
+    ctx.rule('R02.9', 'parse_path(s, pos) and Path(s, pos) hand the path data string UNCHANGED and the given start position to the parser '
+                      '(one call), return a path holding exactly what it produced, and every call returns a fresh object', 3)
+    samples = ['m 10,20 3,-4 L 5 5', 'M1 2', '  m1 2 3 4z', 'z', 'l 1 1', 'm0,0']
+    POS = Rat.csym('POS')
+
+    def entry_theorem(via):
+        def th(it):
+            seen = []
+            made = []
+
+            def pp(it2, a, k):
+                self_, rest = a[0], a[1:]
+                seen.append((rest[0] if rest else k.get('pathdef'), rest[1] if len(rest) > 1 else k.get('current_pos', 'DEFAULT')))
+                mark = Opaque('segment-of-%d' % len(seen))
+                mark.attrs['start'], mark.attrs['end'] = Rat.csym('S%d' % len(seen)), Rat.csym('E%d' % len(seen))
+                made.append(mark)
+                self_.attrs['_segments'].append(mark)
+                return self_.attrs['_segments']
+            it.call_hooks['path.Path._parse_path'] = pp
+            out = []
+            for sname in samples + samples[:2]:          # the first two once more: a second parse of the same string is a new parse
+                for pos in (None, POS):
+                    if via == 'parse_path':
+                        args, kw = [sname], ({} if pos is None else {'current_pos': pos})
+                        r = it.call(it.closure_of('parser.parse_path'), args, kw)
+                    elif via == 'Path(s, pos)':
+                        r = it.construct('path.Path', *([sname] if pos is None else [sname, pos]))
+                    else:
+                        r = it.construct('path.Path', sname, **({} if pos is None else {'current_pos': pos}))
+                    out.append((sname, pos, r))
+            return out, list(seen), list(made)
+        return th
+
+    def entry_judge(v):
+        out, seen, made = v
+        if len(seen) != len(out):
+            return False, ('the parser is called %d times for %d requests (a repeated request is answered from a memo: both callers '
+                           'share one mutable Path)' % (len(seen), len(out)))
+        probs = []
+        objs = []
+        for i, ((sname, pos, r), (got_s, got_p)) in enumerate(zip(out, seen)):
+            if not (isinstance(got_s, str) and got_s == sname):
+                probs.append('the parser is given %r for the path data %r' % (got_s, sname))
+            exp_p = Rat.const(0) if pos is None else pos
+            if got_p == 'DEFAULT' or not to_rat(got_p).equals(exp_p):
+                probs.append('the parser starts at %r instead of %s for %r' % (got_p, 'the given position' if pos is not None else '0', sname))
+            if not (isinstance(r, Obj) and r.attrs.get('_segments') == [made[i]]):
+                probs.append('the returned path does not hold what the parser produced for %r' % sname)
+            if any(r is o for o in objs):
+                probs.append('two calls return the same (mutable) Path object')
+            objs.append(r)
+        return not probs, '; '.join(sorted(set(probs))[:3])
+    for via, q in (('parse_path', 'parser.parse_path'), ('Path(s, pos)', 'path.Path.__init__'), ('Path(s, current_pos=pos)', 'path.Path.__init__')):
+        Obligation(ctx, 'R02.9').run(mdl.func(q), 'entry point %s' % via, entry_theorem(via), entry_judge)
+
     # ------------------------------------------------------------------ R02.8 lexer
     fre = redfa.pattern_of(pm, 'FLOAT_RE')
     d_float = redfa.compile_dfa(fre)
